@@ -16,6 +16,8 @@
 EXTENDS OciClientFaults, Json
 
 CONSTANTS PageSizes, MaxResp, MaxCalls, Families,
+          SizesForAll,  \* TRUE: every family for every page size; FALSE: the listing family for every size, the others for size 1
+
           Level     \* "full": the whole alphabets (property check); "export": thinned after the first response; "lite": small
 VARIABLES budget, ncalls, h
 mcvars == <<vars, budget, ncalls, h>>
@@ -161,9 +163,9 @@ TopCallsOf(Family) ==
                          ELSE {-2, 0, 3} \X {"path", "url", "rel", "bad", "empty"})}
     [] OTHER -> {}
 
-\* (the page size matters to the listing operations only: the exports enumerate the other families for one size
-\* and the harness rotates the sizes over them)
-TopCalls == UNION {TopCallsOf(f) : f \in {g \in Families : Full \/ g = "list" \/ ps = 1}}
+\* (the page size reaches the requests of the listing operations only: the exports enumerate the other families
+\* for one size and the harness rotates the sizes over them)
+TopCalls == UNION {TopCallsOf(f) : f \in {g \in Families : SizesForAll \/ g = "list" \/ ps = 1}}
 AllFamilies == {"single", "read", "range", "list", "upload"}
 
 WriterCalls == {[Cl("Write") EXCEPT !.wlen = k] : k \in (IF Lite /\ ncalls > 1 THEN {2} ELSE {1, 2})}
@@ -220,6 +222,11 @@ MCSpecQ == MCInit /\ [][MCNextQ]_mcvars /\ WF_mcvars(MCNextQ)
 -----------------------------------------------------------------------------
 \* every operation returns (under fairness): the scenario reaches its end, every call having returned
 AlwaysReturns == <>(pc = "end")
+\* ... and without fairness arguments: every step strictly decreases a rank (calls left, responses left, phase),
+\* and TLC's deadlock check shows that only the end state has no step: so every behaviour ends, every call having returned
+Phase == CASE pc = "req" -> 3 [] pc = "done" -> 2 [] pc = "idle" -> 1 [] OTHER -> 0
+Rank == 1000 * (MaxCalls - ncalls) + 10 * budget + Phase
+RankDecreases == [][Rank' < Rank]_mcvars
 \* each iteration consumes a response: a call makes at most one request per scripted response, plus one
 ProgressPerRequest == cq <= (MaxResp - budget) + 1 /\ (budget > 0 => cq <= MaxResp - budget)
 \* no state waits for anything but a response or the caller
